@@ -41,3 +41,16 @@ claim("C07", "property-based testing: exhaustive enumeration of the option latti
       "generated model and grid (24 models quick / 300 thorough); outcomes are classified as explicit option error vs "
       "failure from inside, and returned results are checked for row count, exact time axis, column order, volume column "
       "and first row = initial condition with assignment rules applied.", _TB, "DESIGN.md section 4 C07")
+
+claim("C05", "property-based testing: generated finite-state networks, statistical differential vs chemical master equation (Hypothesis)",
+      "700 (quick) / 8000 (thorough) generated networks x 10k / 40k seeded consecutive SSA paths are compared with the "
+      "master equation solved by matrix exponential on the enumerated state space: pooled chi-square on all marginals "
+      "and consecutive two-time joints with a two-stage confirmation (false-alarm probability < 1e-13 per case); "
+      "plain interface, safe interface (with the guarded reference propensities) and py_simulate_model.  A 5% bias in a "
+      "rate constant is detected at this sample size (measured).", _TB, "DESIGN.md section 4 C05, section 3.3-3.4")
+
+claim("C06", "property-based testing: generated networks and seeded paths, exact invariants over reported rows (Hypothesis)",
+      "30k (quick) / 300k (thorough) seeded paths over seven simulators on instrumented networks (private firing and "
+      "delivery counters): exact reaction-combination identity, integrality, conservation laws from the rational left "
+      "null space, non-negativity, absorption at zero total propensity, and the safe interface's guard table.",
+      _TB, "DESIGN.md section 4 C06")
